@@ -50,7 +50,7 @@ func (world) Rule(p string) string {
 			"2^20, 2^32-1, 2^63-1, 2^64-1, an over-long and a non-minimal varint; and well-formed protobufs whose inner SCALE blobs (header, body extrinsics, justification " +
 			"flags, from-block fields) are corrupted with the same schedule. The REAL decoder of the protocol runs on every mutant. Oracle: message or error (never neither); " +
 			"no panic; allocation delta <= 256*len+128KiB; if it decodes, encode(decode(x)) must decode again and re-encode to the same bytes. No wall-time bound is asserted; " +
-			"a decode that does not return within 2 minutes kills the worker (TROUBLE with the input). Non-trivial = at least one mutant executed."
+			"a decode that does not return within 90 s kills the worker (TROUBLE with the input). Non-trivial = at least one mutant executed."
 	case "C07":
 		return "one run = one node encoding: harvested from a real in-memory trie built from tape keys/values (V0 or V1 layout; node.Encode of every node, proof nodes from " +
 			"proof.Generate over the database written by WriteDirty), or a hand-constructed node (leaf/branch, with/without value, inline or hashed value, partial key lengths " +
